@@ -832,6 +832,13 @@ func lastPairVectors() []vector {
 			out = append(out, vector{args: bb(t), base: t[0], mut: "lastpair-det"})
 		}
 	}
+	return out
+}
+
+// ttlBoundaryVectors: the expiry arguments at their bounds. Part of the deterministic big-a job (local_deletion) and of
+// every fresh wait_compact job (the compact expiry header refuses an expiry second >= MaxUint32-1).
+func ttlBoundaryVectors() []vector {
+	var out []vector
 	// TTL boundaries of the batchable writes with an expiry (SETEX, SET .. EX) and of the EXPIRE family: 0, +-1, the
 	// values around the largest expiry second the store accepts (MaxUint32-1 minus now)
 	nowSec := time.Now().Unix()
@@ -839,6 +846,8 @@ func lastPairVectors() []vector {
 	for _, d := range []int64{0, 1, -1, 2, 4294967293, 4294967294, 4294967295, 4294967296, 4294967294 - nowSec - 1, 4294967294 - nowSec, 4294967294 - nowSec + 1, 4294967294 - nowSec - 5} {
 		ttls = append(ttls, fmt.Sprint(d))
 	}
+	// symbolic: resolved against the timestamp the replicas apply the vector with (main.go, "@ttlmax")
+	ttls = append(ttls, "@ttlmax+0", "@ttlmax-1", "@ttlmax+1", "@ttlmax-2", "@ttlmax+2")
 	for i, d := range ttls {
 		k := fmt.Sprintf("vns:t:ttl%d", i)
 		for _, t := range [][]string{
